@@ -109,4 +109,46 @@ theorem b23_near_inverse (t : ℝ) (h0 : 350 ≤ t) (h1 : t ≤ 590) :
       rw [Real.sqrt_le_left (by linarith)]
       nlinarith
     linarith
+/-- the pressure form: `b23p (b23t p)` differs from `p` by at most 1e-4 Pa over `16.5 MPa ≤ p ≤ 100 MPa`
+    (⊇ the whole boundary `b23p 350 … 100 MPa`) -/
+theorem b23_near_inverse_p (p : ℝ) (h0 : 16500000 ≤ p) (h1 : p ≤ 100000000) :
+    ∃ t p', b23t p = Ret.num t ∧ b23p t = Ret.num p' ∧ |p' - p| ≤ 1 / 10000 := by
+  refine ⟨_, _, b23t_eq p, b23p_eq _, ?_⟩
+  have hn2 : (0 : ℝ) < nr23_2 := by unfold nr23_2; rw [tf_lit]; norm_num
+  set q := (p / 1000000 - nr23_4) / nr23_2 with hq
+  have hq0 : 0 ≤ q := by
+    rw [hq]; apply div_nonneg _ (le_of_lt hn2)
+    have : (nr23_4 : ℝ) ≤ 14 := by unfold nr23_4; rw [tf_lit]; norm_num
+    have : (16.5 : ℝ) ≤ p / 1000000 := by rw [le_div_iff₀ (by norm_num)]; linarith
+    linarith
+  have hq1 : q ≤ 90000 := by
+    rw [hq, div_le_iff₀ hn2]
+    have h4 : (13 : ℝ) ≤ nr23_4 := by unfold nr23_4; rw [tf_lit]; norm_num
+    have h2 : (1 / 1000 : ℝ) ≤ nr23_2 := by unfold nr23_2; rw [tf_lit]; norm_num
+    have : p / 1000000 ≤ 100 := by rw [div_le_iff₀ (by norm_num)]; linarith
+    nlinarith
+  set s := Real.sqrt q with hs
+  have hss : s * s = q := Real.mul_self_sqrt hq0
+  have hs0 : 0 ≤ s := Real.sqrt_nonneg q
+  have hs1 : s ≤ 300 := by
+    rw [hs, Real.sqrt_le_left (by norm_num)]; linarith
+  -- the value is p + 1e6 (c0 + c1 s)
+  have hn2q : nr23_2 * (s * s) = p / 1000000 - nr23_4 := by rw [hss, hq]; field_simp
+  have e : 1000000 * (nr23_0 + (nr23_3 + s - tc_k + tc_k) * (nr23_1 + (nr23_3 + s - tc_k + tc_k) * nr23_2)) - p
+      = 1000000 * ((nr23_0 + nr23_1 * nr23_3 + nr23_2 * nr23_3 ^ 2 - nr23_4) + (nr23_1 + 2 * nr23_2 * nr23_3) * s) := by
+    linear_combination (1000000 : ℝ) * hn2q
+  rw [e]
+  have c0a : (0 : ℝ) ≤ nr23_0 + nr23_1 * nr23_3 + nr23_2 * nr23_3 ^ 2 - nr23_4 := by
+    unfold nr23_0 nr23_1 nr23_2 nr23_3 nr23_4; simp only [tf_lit]; norm_num
+  have c0b : (nr23_0 + nr23_1 * nr23_3 + nr23_2 * nr23_3 ^ 2 - nr23_4 : ℝ) ≤ 2 / 100000000000 := by
+    unfold nr23_0 nr23_1 nr23_2 nr23_3 nr23_4; simp only [tf_lit]; norm_num
+  have c1a : (0 : ℝ) ≤ nr23_1 + 2 * nr23_2 * nr23_3 := by
+    unfold nr23_1 nr23_2 nr23_3; simp only [tf_lit]; norm_num
+  have c1b : (nr23_1 + 2 * nr23_2 * nr23_3 : ℝ) ≤ 1 / 10000000000000 := by
+    unfold nr23_1 nr23_2 nr23_3; simp only [tf_lit]; norm_num
+  have m0 : 0 ≤ (nr23_1 + 2 * nr23_2 * nr23_3) * s := mul_nonneg c1a hs0
+  have m1 : (nr23_1 + 2 * nr23_2 * nr23_3) * s ≤ 1 / 10000000000000 * 300 := mul_le_mul c1b hs1 hs0 (by norm_num)
+  rw [abs_le]
+  constructor <;> nlinarith
+
 end Proofs.Iapws
